@@ -67,7 +67,8 @@ def register(reg, S):
         ensures=[(f"lane{l}-iff-written", f"iff(result.value[{l}] == 1, exists(0, len(datas), lambda k: {idx('k')} == {l}))") for l in LANES]
         + [("bits", " and ".join(f"(result.value[{l}] == 0 or result.value[{l}] == 1)" for l in LANES))],
         loops={0: LoopSpec(invariants=[(f"lane{l}", f"(n[{l}] == 0 or n[{l}] == 1) and iff(n[{l}] == 1, exists(0, _it, lambda k: {idx('k')} == {l}))") for l in LANES])},
-        props=["C02"]))
+        # (the lane clauses of NoteEvent.from_parsed_data are C02's, C03's and C04's: so is their source)
+        props=["C02", "C03", "C04"]))
     group_pre = [("nonempty", "len(datas) >= 1"),
                  ("one-datum-per-index", f"forall(0, len(datas), lambda i: forall(i + 1, len(datas), lambda j: {idx('i')} != {idx('j')}))"),
                  ("open-comes-first", f"forall(1, len(datas), lambda k: {idx('k')} != 7)")]
